@@ -644,6 +644,28 @@ func (e *Exec) havocCall(s *State, f *Frame, x *ssa.Call, fn *ssa.Function, args
 			return nil, false
 		}
 	}
+	// declared "may panic" (zzvp.StubMayPanic): one more outcome - the callee panics
+	var panicArm *State
+	e.mu.Lock()
+	mayPanic := e.stubPanic[fn.String()]
+	e.mu.Unlock()
+	if mayPanic {
+		pv := e.sol.fresh("stub_panics", true)
+		panicArm = s.clone()
+		panicArm.PC = append(panicArm.PC, pv)
+		panicArm.Spy = append(panicArm.Spy, spyRec{Name: fn.String(), Args: args})
+		e.startPanic(panicArm, strPanic("stubbed callee panicked"))
+		s.PC = append(s.PC, tNot(pv))
+	}
+	withPanic := func(fk []*State, done bool) ([]*State, bool) {
+		if panicArm == nil {
+			return fk, done
+		}
+		if fk == nil {
+			fk = []*State{s}
+		}
+		return append([]*State{panicArm}, fk...), done
+	}
 	res := fn.Signature.Results()
 	vals := make(Tuple, res.Len())
 	errIdx := -1
@@ -706,10 +728,10 @@ func (e *Exec) havocCall(s *State, f *Frame, x *ssa.Call, fn *ssa.Function, args
 	}
 	if errIdx < 0 {
 		set(s, vals)
-		return nil, false
+		return withPanic(nil, false)
 	}
 	okv := e.sol.fresh("stub_ok", true)
-	return e.fork(s, okv, func(t *State) { set(t, vals) }, func(t *State) {
+	return withPanic(e.fork(s, okv, func(t *State) { set(t, vals) }, func(t *State) {
 		ev := make(Tuple, len(vals))
 		for i := range ev {
 			if i == errIdx {
@@ -722,5 +744,5 @@ func (e *Exec) havocCall(s *State, f *Frame, x *ssa.Call, fn *ssa.Function, args
 			}
 		}
 		set(t, ev)
-	}), false
+	}), false)
 }
